@@ -46,7 +46,7 @@ def run_mc(ctx, st):
             return res
     r = ctx["run_tlc"](ctx["work"], st["module"], st["cfg"], out, mode=st["mode"], simulate=st.get("num"),
                        depth=st.get("depth"), seed=st.get("seed"), timeout=st.get("timeout", 3000),
-                       constants=st.get("constants"), workers=st.get("workers"))
+                       constants=st.get("constants"), workers=st.get("workers") or ctx.get("tlc_workers"))
     res["tlc_runs"].append(r)
     if r["rc"] != 0:
         res["infra"].append(tlc_error_text(r))
@@ -281,4 +281,20 @@ PROPS["C05"] = dict(
          "expected tensor with more than one element",
     assumptions=["configurations whose output extent would be < 1 or whose attributes are malformed are no-crash only"],
     stages=lambda tier: [mc("conv", "MC_C05.tla", "MC_C05_%s.cfg" % tier, min_cases=9000)],
+)
+
+def _c06(tier):
+    return [mc("recurrent", "MC_C06.tla", "MC_C06_%s.cfg" % tier, min_cases=2000)]
+
+
+PROPS["C06"] = dict(
+    rule="BFS: RNN/GRU/LSTM x seq 1..3 x batch 1..2 x input 1..2 x hidden 1..2 x every subset of the optional inputs (bias, initial_h, "
+         "initial_c, peepholes; absent ones spelled as skipped inputs) x linear_before_reset, with weights distinct per gate block, per bias "
+         "half and per peephole (any permutation changes the result); every activation tuple over {sigmoid, tanh, relu} per slot; invalid "
+         "attribute combinations; every split point of the sequence run as two pieces with the real state fed forward (operator level "
+         "and two Model.Run calls). Values are exact in the saturation regime (|pre-activation| >= 1024 for sigmoid/tanh slots, relu on "
+         "integers); cases leaving the regime are filtered in the spec. non-trivial = expected tensors with more than one element or expected error",
+    assumptions=["sigmoid(x) is exactly 0 / 1 and tanh(x) exactly -1 / 1 for |x| >= 1024 in float32 and float64",
+                 "default-activation trajectories on ordinary values are not recomputed (no reals in TLA+)"],
+    stages=_c06,
 )
